@@ -24,7 +24,8 @@ genparams = sc.genparams
 
 CONFIGS = ([(m, "shared,foreign", "asynctimerchan=1") for m in sc.MODES] +
            [(m, "shared,foreign,api", "asynctimerchan=0") for m in sc.MODES] +
-           [("blocking", "slow", None)])
+           [("blocking", "slow", None), ("blocking", "shared,slowlock", None), ("unbounded", "shared,slowlock,foreign", "asynctimerchan=0"),
+            ("pool", "api,pushfail", None)])
 
 
 def run(ctx):
